@@ -66,6 +66,12 @@ def fixed_sets():
     S["missing"] = [P("a"), C("c", ["a", "zz"]), P("u")]
     S["missing_chain"] = [P("a"), C("c", ["a"]), C("d", ["c", U(9)]), P("u")]
     S["missing_only"] = [C("c", ["zz"]), P("u")]
+    # one-document rule sets: the reference pass has to run for them too (seed C09s1 skipped it for len(rules) <= 1)
+    S["missing_single"] = [C("c", ["zz"])]
+    S["missing_single_id"] = [C("c", [U(9)], ty="event_count")]
+    S["missing_single_two"] = [C("c", ["zz", "yy"])]
+    S["self_single"] = [C("c", ["c"], ty="event_count")]
+    S["plain_single"] = [P("a")]
     # cycles (rejected inputs: conversion fails in every order)
     S["self"] = [C("c", ["c"]), P("a")]
     S["cycle2"] = [C("c", ["d", "a"]), C("d", ["c"]), P("a")]
